@@ -14,6 +14,27 @@ pub fn outcome_json(id: &serde_json::Value, o: &Outcome, micros: u128) -> serde_
     }
 }
 
+/// Items of an expansion as a sorted multiset of token strings, with where-predicates sorted inside each impl
+/// (the order of impls and of where-predicates is semantically irrelevant).
+pub fn canonical_items(tokens: &str) -> Vec<String> {
+    use quote::ToTokens;
+    let Ok(mut file) = syn::parse_str::<syn::File>(tokens) else { return vec![format!("UNPARSABLE {tokens}")] };
+    let mut out = Vec::new();
+    for item in &mut file.items {
+        if let syn::Item::Impl(imp) = item {
+            if let Some(w) = &mut imp.generics.where_clause {
+                let mut preds: Vec<syn::WherePredicate> = w.predicates.iter().cloned().collect();
+                preds.sort_by_key(|p| p.to_token_stream().to_string());
+                preds.dedup_by_key(|p| p.to_token_stream().to_string());
+                w.predicates = preds.into_iter().collect();
+            }
+        }
+        out.push(item.to_token_stream().to_string());
+    }
+    out.sort();
+    out
+}
+
 pub fn main(args: &[String]) -> i32 {
     let serial = args.iter().any(|a| a == "--serial");
     let stdin = std::io::stdin();
@@ -31,7 +52,13 @@ pub fn main(args: &[String]) -> i32 {
         };
         let t0 = std::time::Instant::now();
         let o = expand_str(d, item);
-        outcome_json(&id, &o, t0.elapsed().as_micros()).to_string()
+        let mut j = outcome_json(&id, &o, t0.elapsed().as_micros());
+        if v.get("canon").and_then(|c| c.as_bool()).unwrap_or(false) {
+            if let Outcome::Ok(t) = &o {
+                j["canon"] = serde_json::json!(canonical_items(t));
+            }
+        }
+        j.to_string()
     };
     let out: Vec<String> = if serial {
         lines.iter().map(work).collect()
